@@ -16,4 +16,6 @@ def run(tier):
     preempt.overdue_rule(run, f, "C22-OVERDUE-ONLY")
     preempt.shared_set_rule(run, f, "C22-SHARED-SET")
     preempt.registration_rule(run, f, "C22-REGISTRATION")
+    from rules import wave3
+    wave3.monitor_park_rule(run, f, "C22-MONITOR-PARK")
     return run.finish()
